@@ -165,7 +165,8 @@ def apply_op(h, op, tmpdir=None):
         try:
             comment = op[3] if len(op) > 3 else ""
             h.write_to_file(fn, op[2], comment=comment, columns=None if op[1] is None else list(op[1]))
-            return parse_csv(open(fn).read())
+            with open(fn, newline="") as f:        # no newline translation: header texts may hold line breaks
+                return parse_csv(f.read())
         finally:
             os.unlink(fn)
     else:
@@ -262,7 +263,10 @@ def parse_obs(s):
         if int(n):
             for b in body.split("#"):
                 hd, rows = b.split("@", 1)
-                blocks.append(([bytes.fromhex(c).decode() for c in hd.split(";")] if hd else [], _parr(rows)))
+                rows = _parr(rows)
+                # an empty header field: one column labelled "" (a write with NO column is never generated with rows)
+                one_empty = hd == "" and not (rows and len(rows[0]) == 0)
+                blocks.append(([""] if one_empty else [bytes.fromhex(c).decode() for c in hd.split(";")], rows))
         return ("ok", blocks)
     return (p[0], dict(nb=int(p[1]), nh=int(p[2]), edges=_pf(p[3]), hist=_parr(p[4]), raw=_parr(p[5]),
                        err=_parr(p[6]), scal=_parr(p[7]), sys=_parr(p[8]), centers=_pf(p[9]), widths=_pf(p[10])))
